@@ -27,6 +27,7 @@ import JsonV.Lemmas.CmpL
 import JsonV.Lemmas.GlueMeaningFuel
 import JsonV.Lemmas.ResumeNum
 import JsonV.Model.TokenLoop
+import JsonV.Lemmas.ResumeStreamCons
 import JsonV.Gen.Constants
 
 namespace JsonV.Props.C20
@@ -380,9 +381,11 @@ exhausted, for EVERY input — i.e. the modelled loop terminates.  What each cov
   ≥ 2·|b| gives the same answer as any successful run);
 * `terminates_marshalTraversal` (`cycle_bounded` above): the recursion of marshal over Go values;
 * `terminates_valueSkeleton`: the skeleton model of this file.
-NOT covered by a no-fuel theorem (validated by the watchdogs of the harness only): the ReadToken loop model
-(`TokenLoop.tokens`, kept as `terminates_tokens_full`), Encoder.WriteValue's reformatValue model (C06 proves
-its result when it succeeds, not fuel adequacy), v1.Indent's placeholder loop, Unmarshal's recursion over Go values. -/
+* `terminates_tokens`: the caller's `for { ReadToken }` loop (also the loop inside SkipValue), every input;
+* `terminates_streaming`: the four refill loops of the streaming decoder, every finite list of reader events.
+NOT covered by a no-fuel theorem (validated by the watchdogs of the harness only): Encoder.WriteValue's reformatValue
+model (C06 proves its result when it succeeds, not fuel adequacy), v1.Indent's placeholder loop, Unmarshal's recursion
+over Go values. -/
 
 section Termination
 open JsonV.Model.Validate
@@ -423,9 +426,30 @@ theorem terminates_valueSkeleton (max fuel fuel' depth : Nat) (inp : List Sym) (
     (h : value max fuel depth inp = r) (hr : r ≠ .error .fuel) (hle : fuel ≤ fuel') : value max fuel' depth inp = r :=
   value_fuel_le max h hr hle
 
-/-- full statement, not proved: the ReadToken loop model never exhausts its fuel `|b| + 1` -/
-def terminates_tokens_full : Prop :=
-  ∀ (o : VOpts) (b : Bytes), (JsonV.Model.TokenLoop.tokens o b).2.2 ≠ .fuel
+/-- The ReadToken loop model (`TokenLoop.tokens`: ReadToken until io.EOF or an error, the loop behind SkipValue and
+the token-by-token callers) never exhausts its fuel `|b| + 1`, for EVERY input: a token consumes at least one byte
+(the `bug` arm) and at most the remaining input, and no lexer reports the out-of-fuel class.  (No length bound is
+needed; for inputs shorter than 2^61 bytes wire's `token_value`/`token_stream` (C01) then say what the answer is.) -/
+theorem terminates_tokens (o : VOpts) (b : Bytes) : (JsonV.Model.TokenLoop.tokens o b).2.2 ≠ .fuel :=
+  JsonV.Lemmas.DepthTerm.tokens_no_fuel o b
+
+/-- The streaming decoder's refill loops (Model/Stream.lean `refill`: the `for { scan; if needs more { fetch; continue } }`
+loops of decoderState.consumeWhitespace/consumeLiteral/consumeString/consumeNumber, decode.go:838-967) terminate for every
+finite list of reader events: `refill` is defined by recursion on the event list — every re-entry of the scanner consumes
+one event — and what it leaves is a suffix of the events it was given (a fault is reported only after a fault event).
+That the answers of whole scripts of ReadToken/ReadValue/SkipValue over any chunking equal those of the whole-buffer
+model (whose fuel is adequate by `terminates_validText`/`terminates_tokens`) is c05's `sim_full` (Props/C05.lean). -/
+theorem terminates_streaming {α β : Type} (step : Bytes → α → α ⊕ β) (atEof : Bytes → α → β)
+    (es : List JsonV.Model.Stream.Event) (v : Bytes) (a : α) :
+    JsonV.Model.Stream.Consumed es (JsonV.Model.Stream.refill step atEof v a es).evs
+      (JsonV.Model.Stream.refill step atEof v a es).isFault ∧
+    (JsonV.Model.Stream.refill step atEof v a es).evs.length ≤ es.length := by
+  have h := JsonV.Model.Stream.refill_consumed step atEof es v a
+  refine ⟨h, ?_⟩
+  obtain ⟨pre, hpre, _⟩ := h
+  have := congrArg List.length hpre
+  simp only [List.length_append] at this
+  omega
 
 end Termination
 
